@@ -3,6 +3,8 @@
   `Δ` = Σ of the hub's delegations as the staking module reports them.
 -/
 import Krp.Props.C03
+import Krp.Props.C07
+import Krp.Lemmas.Wiring
 namespace Krp
 open HubSt
 
@@ -130,5 +132,751 @@ theorem C02_convert_keeps_sum (h h' : HubSt) (e : HubEnv) (amount : Nat) (user :
     exact ⟨st, hst, by rw [hh]; simp only []; omega⟩
 
 example : calculateDelegations 1000 [0, 0, 0] = some (0, [334, 333, 333]) := by decide
+
+/-! ### Over whole transactions and histories
+
+  Staking messages of the hub (`Delegate` / `Undelegate` with the hub as delegator) are emitted at
+  the front of a handler's message list and therefore executed before anything else.  The
+  invariant carried through the message queue is
+
+      booked stake + pending hub undelegations ≤ delegated stake + pending hub delegations
+
+  with the pending staking messages forming a prefix of the queue. -/
+
+def isStake : Msg → Bool
+  | .delegate d _ _ => d == hubA
+  | .undelegate d _ _ => d == hubA
+  | _ => false
+
+def delSum : List Msg → Nat
+  | [] => 0
+  | m :: ms => (match m with | .delegate d _ a => if d = hubA then a else 0 | _ => 0) + delSum ms
+
+def undelSum : List Msg → Nat
+  | [] => 0
+  | m :: ms => (match m with | .undelegate d _ a => if d = hubA then a else 0 | _ => 0) + undelSum ms
+
+theorem delSum_append (x y : List Msg) : delSum (x ++ y) = delSum x + delSum y := by
+  induction x with
+  | nil => simp [delSum]
+  | cons m ms ih => simp only [List.cons_append, delSum, ih]; omega
+
+theorem undelSum_append (x y : List Msg) : undelSum (x ++ y) = undelSum x + undelSum y := by
+  induction x with
+  | nil => simp [undelSum]
+  | cons m ms ih => simp only [List.cons_append, undelSum, ih]; omega
+
+theorem noStake_sums (q : List Msg) (h : ∀ m ∈ q, isStake m = false) : delSum q = 0 ∧ undelSum q = 0 := by
+  induction q with
+  | nil => exact ⟨rfl, rfl⟩
+  | cons m ms ih =>
+    have hm := h m (List.mem_cons_self ..)
+    have hr := ih (fun x hx => h x (List.mem_cons_of_mem _ hx))
+    cases m <;> simp_all [delSum, undelSum, isStake]
+
+theorem sentBy_noStake (a : Addr) (ha : a ≠ hubA) (ms : List Msg) (h : SentBy a ms) :
+    ∀ m ∈ ms, isStake m = false := by
+  intro m hm
+  have := h m hm
+  cases m <;> simp_all [isStake, Msg.sentFrom]
+
+/-- the hub's own Delegate messages: all staking, and `delSum` is their total -/
+theorem delegs_stake (h : HubSt) (e : HubEnv) (p : Nat) (ms : List Msg) (he : e.self = hubA)
+    (hx : h.delegMsgs e p = .ok ms) :
+    (∀ m ∈ ms, isStake m = true) ∧ delSum ms = p ∧ undelSum ms = 0 := by
+  obtain ⟨hsum, reg, vs, _, _, hall⟩ := C02_bond_delegated_in_full h e p ms hx
+  have key : ∀ (l : List Msg), (∀ m ∈ l, ∃ v a, m = Msg.delegate e.self v a ∧ v ∈ vs.map (·.1) ∧ 0 < a) →
+      (∀ m ∈ l, isStake m = true) ∧ delSum l = delegatedBy l ∧ undelSum l = 0 := by
+    intro l
+    induction l with
+    | nil => intro _; exact ⟨(fun _ h => by cases h), rfl, rfl⟩
+    | cons m ms ih =>
+      intro hl
+      obtain ⟨v, a, hm, _, _⟩ := hl m (List.mem_cons_self ..)
+      have r := ih (fun x hx => hl x (List.mem_cons_of_mem _ hx))
+      subst hm
+      refine ⟨fun x hx => ?_, ?_, ?_⟩
+      · rcases List.mem_cons.mp hx with rfl | hx
+        · simp [isStake, he]
+        · exact r.1 x hx
+      · simp only [delSum, delegatedBy, he, if_true, r.2.1]
+      · simp only [undelSum, r.2.2]
+  have k := key ms hall
+  exact ⟨k.1, by rw [k.2.1, hsum], k.2.2⟩
+
+/-- the hub's own Undelegate messages -/
+theorem undelegs_stake (e : HubEnv) (claim : Nat) (ms : List Msg) (he : e.self = hubA)
+    (hx : pickValidator e claim = .ok ms) :
+    (∀ m ∈ ms, isStake m = true) ∧ undelSum ms = claim ∧ delSum ms = 0 := by
+  have hsum := C03_undelegate_messages_sum e claim ms hx
+  unfold pickValidator at hx
+  simp only [] at hx
+  split at hx
+  · cases hx
+  · rename_i plan hplan
+    injection hx with hx
+    have key : ∀ (vs : List (Addr × Nat)) (ps : List Nat),
+        (∀ m ∈ zipMsgs (fun v p => Msg.undelegate hubA v p) vs ps, isStake m = true) ∧
+        undelSum (zipMsgs (fun v p => Msg.undelegate hubA v p) vs ps) =
+          undelegatedBy (zipMsgs (fun v p => Msg.undelegate hubA v p) vs ps) ∧
+        delSum (zipMsgs (fun v p => Msg.undelegate hubA v p) vs ps) = 0 := by
+      intro vs
+      induction vs with
+      | nil => intro ps; simp [zipMsgs, undelSum, delSum, undelegatedBy]
+      | cons v vs ih =>
+        intro ps
+        cases ps with
+        | nil => simp [zipMsgs, undelSum, delSum, undelegatedBy]
+        | cons p ps =>
+          obtain ⟨v1, v2⟩ := v
+          have r := ih ps
+          simp only [zipMsgs]
+          by_cases hp : p = 0
+          · simp only [hp, if_true, List.nil_append]; exact r
+          · simp only [hp, if_false, List.singleton_append]
+            refine ⟨fun x hx' => ?_, ?_, ?_⟩
+            · rcases List.mem_cons.mp hx' with rfl | hx'
+              · simp [isStake]
+              · exact r.1 x hx'
+            · simp only [undelSum, undelegatedBy, if_true, r.2.1]
+            · simp only [delSum, r.2.2]
+    subst hx
+    rw [he] at hsum ⊢
+    have k := key (sortDesc e.delegations) plan
+    exact ⟨k.1, by rw [k.2.1]; exact hsum, k.2.2⟩
+
+/-- **One hub message, on the books.** If the booked stake is at most `T` = the delegated stake the
+    hub sees, then after any accepted hub message the emitted list is (staking messages) ++ (others)
+    and  booked' + undelegations emitted ≤ T + delegations emitted. -/
+theorem hub_books_step (h h' : HubSt) (e : HubEnv) (sender : Addr) (funds : List (Denom × Nat))
+    (m : HubMsg) (ms : List Msg) (T : Nat) (he : e.self = hubA)
+    (hT : (e.delegations.map (·.2)).sum = T) (hinv : h.bBond + h.sBond ≤ T)
+    (hx : hubExec h e sender funds m = .ok (h', ms)) :
+    ∃ pre rest, ms = pre ++ rest ∧ (∀ x ∈ pre, isStake x = true) ∧ (∀ x ∈ rest, isStake x = false) ∧
+      h'.bBond + h'.sBond + undelSum pre ≤ T + delSum pre := by
+  -- the slashing check keeps or lowers the books
+  have act : ∀ st, h.actualState e = .ok st → st.bBond + st.sBond ≤ T := by
+    intro st hst
+    have hs := actualState_spec h st e hst
+    rcases hs.2 with ⟨_, heq⟩ | ⟨bs, ss, _, _, _, _, _, _, hcase⟩
+    · subst heq; exact hinv
+    · rcases hcase with ⟨_, hb, hsb⟩ | ⟨_, _, hsum⟩ <;> omega
+  have plain : ∀ {x : HubSt} (rest : List Msg), x.bBond + x.sBond ≤ T → (∀ y ∈ rest, isStake y = false) →
+      ∃ pre rest', rest = pre ++ rest' ∧ (∀ y ∈ pre, isStake y = true) ∧ (∀ y ∈ rest', isStake y = false) ∧
+        x.bBond + x.sBond + undelSum pre ≤ T + delSum pre :=
+    fun rest hb hr => ⟨[], rest, rfl, (fun _ hm => by cases hm), hr, (by simp [undelSum, delSum]; exact hb)⟩
+  cases m with
+  | migrateWaitList limit =>
+    simp only [hubExec] at hx
+    split at hx
+    · injection hx with hx; injection hx with h1 h2; subst h1; subst h2
+      refine plain [] ?_ (fun _ hm => by cases hm)
+      have f := migrate_frame h limit
+      unfold migrate
+      simp only []
+      split
+      · exact hinv
+      · show (List.foldl migrateOne h _).bBond + (List.foldl migrateOne h _).sBond ≤ T
+        have : ∀ (l : List (Addr × Nat × Nat)) (x : HubSt), (l.foldl migrateOne x).bBond = x.bBond ∧
+            (l.foldl migrateOne x).sBond = x.sBond := by
+          intro l
+          induction l with
+          | nil => intro x; exact ⟨rfl, rfl⟩
+          | cons a l ih => intro x; simp only [List.foldl_cons]; rw [(ih _).1, (ih _).2]; exact ⟨rfl, rfl⟩
+        rw [(this _ h).1, (this _ h).2]; exact hinv
+    · cases hx
+  | updateParams a b c d p r =>
+    simp only [hubExec] at hx
+    exc_norm at hx
+    split at hx
+    · cases hx
+    · rename_i h1 hp
+      injection hx with hx; injection hx with e1 e2; subst e1; subst e2
+      unfold updateParams at hp
+      exc_norm at hp
+      exc_split at hp
+      all_goals exact plain [] hinv (fun _ hm => by cases hm)
+  | receive user amt hook =>
+    simp only [hubExec] at hx
+    split at hx
+    · cases hx
+    · exc_norm at hx
+      split at hx
+      · cases hx
+      · split at hx
+        · cases hx
+        · cases hook with
+          | other => simp only [] at hx; cases hx
+          | convert =>
+            simp only [] at hx
+            split at hx
+            · obtain ⟨st, hst, hsum⟩ := (C02_convert_keeps_sum h h' e amt user ms).2 hx
+              obtain ⟨_, _, _, _, _, _, _, _, _, _, _, _, _, _, _, _, hm⟩ := convertBS_spec _ _ _ _ _ _ hx
+              subst hm
+              exact plain _ (by rw [hsum]; exact act st hst) (by intro y hy; simp at hy; rcases hy with rfl | rfl <;> rfl)
+            · split at hx
+              · obtain ⟨st, hst, hsum⟩ := (C02_convert_keeps_sum h h' e amt user ms).1 hx
+                obtain ⟨_, _, _, _, _, _, _, _, _, _, _, _, _, _, _, _, hm⟩ := convertSB_spec _ _ _ _ _ _ hx
+                subst hm
+                exact plain _ (by rw [hsum]; exact act st hst) (by intro y hy; simp at hy; rcases hy with rfl | rfl <;> rfl)
+              · cases hx
+          | unbond =>
+            simp only [] at hx
+            split at hx
+            · obtain ⟨st, supply, wf, tok, hst, _, _, _, _, _, hcase⟩ := unbondB_spec _ _ _ _ _ _ hx
+              have hb : (st.afterUnbondB user supply amt wf).bBond + (st.afterUnbondB user supply amt wf).sBond ≤ T :=
+                act st hst
+              rcases hcase with ⟨_, um, hp, hm⟩ | ⟨_, hh, hm⟩
+              · have ex := C02_undelegation_exact _ _ _ _ hp
+                have sp := processUndelegations_spec _ _ _ _ hp
+                have us := undelegs_stake e _ um he sp.1
+                have hu := C03_undelegate_messages_sum e _ um sp.1
+                refine ⟨um, [tokMsg e.self tok (.burn amt)], hm, us.1, by intro y hy; simp at hy; subst hy; rfl, ?_⟩
+                rw [us.2.1, us.2.2]; omega
+              · subst hh; subst hm
+                exact plain _ hb (by intro y hy; simp at hy; subst hy; rfl)
+            · split at hx
+              · obtain ⟨st, tok, hst, _, _, hcase⟩ := unbondS_spec _ _ _ _ _ _ hx
+                have hb : (st.afterUnbondS user amt).bBond + (st.afterUnbondS user amt).sBond ≤ T := act st hst
+                rcases hcase with ⟨_, um, hp, hm⟩ | ⟨_, hh, hm⟩
+                · have ex := C02_undelegation_exact _ _ _ _ hp
+                  have sp := processUndelegations_spec _ _ _ _ hp
+                  have us := undelegs_stake e _ um he sp.1
+                  have hu := C03_undelegate_messages_sum e _ um sp.1
+                  refine ⟨um, [tokMsg e.self tok (.burn amt)], hm, us.1, by intro y hy; simp at hy; subst hy; rfl, ?_⟩
+                  rw [us.2.1, us.2.2]; omega
+                · subst hh; subst hm
+                  exact plain _ hb (by intro y hy; simp at hy; subst hy; rfl)
+              · cases hx
+  | bond =>
+    simp only [hubExec] at hx; split at hx
+    · cases hx
+    · obtain ⟨p, st, mint, dl, tok, _, hst, _, _, hd, _, hh, hm⟩ := bondB_spec _ _ _ _ _ _ hx
+      have ds := delegs_stake h e p dl he hd
+      refine ⟨dl, [tokMsg e.self tok (.mint sender mint)], hm, ds.1, by intro y hy; simp at hy; subst hy; rfl, ?_⟩
+      have := act st hst
+      rw [hh, ds.2.1, ds.2.2]; simp only []; omega
+  | bondForStSei =>
+    simp only [hubExec] at hx; split at hx
+    · cases hx
+    · obtain ⟨p, st, dl, tok, _, hst, _, hd, _, hh, hm⟩ := bondS_spec _ _ _ _ _ _ hx
+      have ds := delegs_stake h e p dl he hd
+      refine ⟨dl, [tokMsg e.self tok (.mint sender (decDiv p st.sRate))], hm, ds.1, by intro y hy; simp at hy; subst hy; rfl, ?_⟩
+      have := act st hst
+      rw [hh, ds.2.1, ds.2.2]; simp only []; omega
+  | bondRewards =>
+    simp only [hubExec] at hx; split at hx
+    · cases hx
+    · obtain ⟨p, st, _, _, hst, hd, hh⟩ := bondR_spec _ _ _ _ _ _ hx
+      have ds := delegs_stake h e p ms he hd
+      refine ⟨ms, [], by simp, ds.1, (fun _ hm => by cases hm), ?_⟩
+      have := act st hst
+      rw [hh, ds.2.1, ds.2.2]; simp only []; omega
+  | updateGlobalIndex =>
+    simp only [hubExec] at hx; split at hx
+    · cases hx
+    · unfold updateGlobal at hx
+      exc_norm at hx
+      exc_split at hx
+      all_goals
+        refine plain _ hinv ?_
+        intro y hy
+        simp only [List.mem_append, List.mem_map, List.mem_cons, List.mem_nil_iff, or_false] at hy
+        rcases hy with ⟨d, _, rfl⟩ | rfl | rfl <;> rfl
+  | withdrawUnbonded =>
+    simp only [hubExec] at hx; split at hx
+    · cases hx
+    · obtain ⟨_, h1, hp, _, _, hh, hm⟩ := withdraw_spec _ _ _ _ _ hx
+      have sp := processWithdrawRate_spec h h1 _ _ hp
+      have fs := delWait_fold_spec (h1.finished sender).2 sender h1
+      subst hm
+      refine plain _ ?_ (by intro y hy; simp at hy; subst hy; rfl)
+      subst hh
+      show (List.foldl (fun hh i => hh.delWait sender i) h1 (h1.finished sender).2).bBond +
+        (List.foldl (fun hh i => hh.delWait sender i) h1 (h1.finished sender).2).sBond ≤ T
+      rw [fs.2.2.2.2.2.1, fs.2.2.2.2.2.2.1, sp.2.2.2.2.2.2.2.2.1, sp.2.2.2.2.2.2.2.2.2.1]; exact hinv
+  | checkSlashing =>
+    simp only [hubExec] at hx; split at hx
+    · cases hx
+    · exc_norm at hx
+      split at hx
+      · cases hx
+      · rename_i st hst
+        injection hx with hx; injection hx with e1 e2; subst e1; subst e2
+        exact plain [] (act st hst) (fun _ hm => by cases hm)
+  | updateConfig a b c d f g u =>
+    simp only [hubExec] at hx; split at hx
+    · cases hx
+    · unfold updateConfig at hx
+      exc_norm at hx
+      exc_split at hx
+      refine plain _ hinv ?_
+      intro y hy
+      cases a with
+      | none => cases hy
+      | some dd => simp at hy; subst hy; rfl
+  | setOwner a =>
+    simp only [hubExec] at hx; exc_norm at hx; exc_split at hx
+    exact plain [] hinv (fun _ hm => by cases hm)
+  | acceptOwnership =>
+    simp only [hubExec] at hx; exc_norm at hx; exc_split at hx
+    exact plain [] hinv (fun _ hm => by cases hm)
+  | swapHook =>
+    simp only [hubExec] at hx; exc_norm at hx; exc_split at hx
+    exact plain _ hinv (by intro y hy; simp at hy; subst hy; rfl)
+  | claimAirdrop =>
+    simp only [hubExec] at hx; exc_norm at hx; exc_split at hx
+    exact plain _ hinv (by intro y hy; simp at hy; rcases hy with rfl | rfl <;> rfl)
+  | redelegateProxy src plan =>
+    simp only [hubExec] at hx; exc_norm at hx; exc_split at hx
+    refine plain _ hinv ?_
+    intro y hy
+    simp only [List.mem_map] at hy
+    obtain ⟨pp, _, rfl⟩ := hy
+    rfl
+
+/-! #### the chain side -/
+
+def totalDelegated (s : Sys) : Nat := (valUniverse.map s.chain.deleg).sum
+
+/-- staking-module facts: stake sits only on known validators, and where no delegation object
+    exists there is no stake -/
+structure ChainOK (s : Sys) : Prop where
+  outside : ∀ v, v ∉ valUniverse → s.chain.deleg v = 0
+  unset : ∀ v, s.chain.delegSet v = false → s.chain.deleg v = 0
+
+theorem sum_filter_zero (l : List Addr) (p : Addr → Bool) (f : Addr → Nat)
+    (h : ∀ v, p v = false → f v = 0) : ((l.filter p).map f).sum = (l.map f).sum := by
+  induction l with
+  | nil => rfl
+  | cons a l ih =>
+    simp only [List.filter_cons]
+    cases hp : p a
+    · simp only [Bool.false_eq_true, if_false, List.map_cons, List.sum_cons, h a hp, Nat.zero_add]; exact ih
+    · simp only [if_true, List.map_cons, List.sum_cons, ih]
+
+/-- what the hub sees as its delegations sums to the delegated stake -/
+theorem delegations_sum (s : Sys) (c : ChainOK s) :
+    ((s.hubEnv.delegations).map (·.2)).sum = totalDelegated s := by
+  show (((s.delegationsOf hubA)).map (·.2)).sum = _
+  unfold Sys.delegationsOf totalDelegated
+  simp only [if_true, List.map_map]
+  exact sum_filter_zero valUniverse _ _ c.unset
+
+theorem sum_upd (l : List Addr) (f : Addr → Nat) (v : Addr) (x : Nat) (hn : l.Nodup) :
+    (l.map (upd f v x)).sum + (if v ∈ l then f v else 0) = (l.map f).sum + (if v ∈ l then x else 0) := by
+  induction l with
+  | nil => simp
+  | cons a l ih =>
+    have hn' := (List.nodup_cons.mp hn)
+    have r := ih hn'.2
+    simp only [List.map_cons, List.sum_cons, List.mem_cons]
+    by_cases hav : v = a
+    · subst hav
+      have hnot : v ∉ l := hn'.1
+      simp only [hnot, if_false, Nat.add_zero] at r
+      simp only [upd_same, true_or, if_true]
+      omega
+    · have hne : a ≠ v := fun h => hav h.symm
+      simp only [upd_other _ _ _ _ hne, hav, false_or]
+      omega
+
+theorem valUniverse_nodup : valUniverse.Nodup := by decide
+
+/-- everything carried from message to message -/
+structure BookInv (s : Sys) (q : List Msg) : Prop where
+  chain : ChainOK s
+  split : ∃ pre rest, q = pre ++ rest ∧ (∀ x ∈ pre, isStake x = true) ∧ (∀ x ∈ rest, isStake x = false) ∧
+    s.hub.bBond + s.hub.sBond + undelSum pre ≤ totalDelegated s + delSum pre
+
+theorem BookInv.drained {s : Sys} (h : BookInv s []) : s.hub.bBond + s.hub.sBond ≤ totalDelegated s := by
+  obtain ⟨pre, rest, hq, _, _, hle⟩ := h.split
+  have : pre = [] := by
+    cases pre with
+    | nil => rfl
+    | cons p t => simp only [List.cons_append] at hq; cases hq
+  subst this
+  simpa [undelSum, delSum] using hle
+
+/-- moving funds and calling a contract other than the hub leaves stake and books alone -/
+theorem handle_wasm_chain (s s' : Sys) (a b : Addr) (c : Call) (d : List (Denom × Nat)) (ms : List Msg)
+    (hx : s.handle (.wasm a b c d) = .ok (s', ms)) :
+    s'.chain.deleg = s.chain.deleg ∧ s'.chain.delegSet = s.chain.delegSet := by
+  simp only [Sys.handle] at hx
+  exc_norm at hx
+  split at hx
+  · cases hx
+  · rename_i s1 h1
+    have sk := moveFunds_staking a b d s s1 h1
+    have : s'.chain = s1.chain := by
+      exc_split at hx
+      all_goals rfl
+    rw [this]; exact sk
+
+theorem BookInv.step (s s' : Sys) (m : Msg) (rest0 subs : List Msg)
+    (inv : BookInv s (m :: rest0)) (hx : s.handle m = .ok (s', subs)) : BookInv s' (subs ++ rest0) := by
+  obtain ⟨pre, rest, hq, hpre, hrest, hle⟩ := inv.split
+  have c := inv.chain
+  by_cases hst : isStake m = true
+  · -- the head is one of the hub's pending staking messages
+    have hpre' : ∃ pre', pre = m :: pre' ∧ rest0 = pre' ++ rest := by
+      cases pre with
+      | nil =>
+        simp only [List.nil_append] at hq
+        have := hrest m (by rw [← hq]; exact List.mem_cons_self ..)
+        rw [hst] at this; cases this
+      | cons p pre' =>
+        simp only [List.cons_append] at hq
+        injection hq with h1 h2
+        exact ⟨pre', by rw [h1], h2⟩
+    obtain ⟨pre', hp, hr0⟩ := hpre'
+    subst hp
+    cases m with
+    | delegate who v amt =>
+      have hw : who = hubA := by simpa [isStake] using hst
+      subst hw
+      simp only [Sys.handle] at hx
+      exc_norm at hx
+      exc_split at hx
+      rename_i hin _
+      have hv : v ∈ valUniverse := by simpa using hin
+      have hs := sum_upd valUniverse s.chain.deleg v (s.chain.deleg v + amt) valUniverse_nodup
+      simp only [hv, if_true] at hs
+      refine ⟨⟨fun w hw => ?_, fun w hw => ?_⟩, pre', rest, by simp [hr0], fun x hx' => hpre x (List.mem_cons_of_mem _ hx'), hrest, ?_⟩
+      · have hne : w ≠ v := fun h => hw (h ▸ hv)
+        show upd (s.setBank hubA 0 _).chain.deleg v _ w = 0
+        simp only [Sys.setBank, upd_other _ _ _ _ hne]; exact c.outside w hw
+      · by_cases hwv : w = v
+        · subst hwv; simp [Sys.setBank, upd] at hw
+        · have : s.chain.delegSet w = false := by simpa [Sys.setBank, upd, hwv] using hw
+          show upd (s.setBank hubA 0 _).chain.deleg v _ w = 0
+          simp only [Sys.setBank, upd_other _ _ _ _ hwv]; exact c.unset w this
+      · show s.hub.bBond + s.hub.sBond + undelSum pre' ≤ (valUniverse.map (upd s.chain.deleg v (s.chain.deleg v + amt))).sum + delSum pre'
+        simp only [undelSum, delSum, if_true] at hle
+        unfold totalDelegated at hle
+        omega
+    | undelegate who v amt =>
+      have hw : who = hubA := by simpa [isStake] using hst
+      subst hw
+      simp only [Sys.handle] at hx
+      exc_norm at hx
+      exc_split at hx
+      rename_i hz hge
+      have hv : v ∈ valUniverse := by
+        by_cases hv : v ∈ valUniverse
+        · exact hv
+        · have := c.outside v hv; omega
+      have hs := sum_upd valUniverse s.chain.deleg v (s.chain.deleg v - amt) valUniverse_nodup
+      simp only [hv, if_true] at hs
+      refine ⟨⟨fun w hw => ?_, fun w hw => ?_⟩, pre', rest, by simp [hr0], fun x hx' => hpre x (List.mem_cons_of_mem _ hx'), hrest, ?_⟩
+      · have hne : w ≠ v := fun h => hw (h ▸ hv)
+        show upd s.chain.deleg v _ w = 0
+        rw [upd_other _ _ _ _ hne]; exact c.outside w hw
+      · by_cases hwv : w = v
+        · subst hwv
+          show upd s.chain.deleg w _ w = 0
+          rw [upd_same]
+          have : decide (s.chain.deleg w - amt > 0) = false := by simpa [upd] using hw
+          simpa using this
+        · have : s.chain.delegSet w = false := by simpa [upd, hwv] using hw
+          show upd s.chain.deleg v _ w = 0
+          rw [upd_other _ _ _ _ hwv]; exact c.unset w this
+      · show s.hub.bBond + s.hub.sBond + undelSum pre' ≤ (valUniverse.map (upd s.chain.deleg v (s.chain.deleg v - amt))).sum + delSum pre'
+        simp only [undelSum, delSum, if_true] at hle
+        unfold totalDelegated at hle
+        omega
+    | _ => simp [isStake] at hst
+  · -- the head is not a staking message: nothing is pending
+    have hst' : isStake m = false := by simpa using hst
+    have hpre0 : pre = [] := by
+      cases pre with
+      | nil => rfl
+      | cons p pre' =>
+        simp only [List.cons_append] at hq
+        injection hq with h1 _
+        have := hpre p (List.mem_cons_self ..)
+        rw [← h1, hst'] at this; cases this
+    subst hpre0
+    simp only [List.nil_append] at hq
+    have hr0 : ∀ x ∈ rest0, isStake x = false := fun x hx' => hrest x (by rw [← hq]; exact List.mem_cons_of_mem _ hx')
+    have hb : s.hub.bBond + s.hub.sBond ≤ totalDelegated s := by simpa [undelSum, delSum] using hle
+    -- generic conclusion when stake and books are untouched and nothing staking is emitted
+    have same : s'.hub = s.hub → s'.chain.deleg = s.chain.deleg → s'.chain.delegSet = s.chain.delegSet →
+        (∀ x ∈ subs, isStake x = false) → BookInv s' (subs ++ rest0) := by
+      intro hh hd hds hsub
+      refine ⟨⟨fun w hw => by rw [hd]; exact c.outside w hw, fun w hw => by rw [hd]; rw [hds] at hw; exact c.unset w hw⟩,
+        [], subs ++ rest0, rfl, (fun _ hm => by cases hm), ?_, ?_⟩
+      · intro x hx'
+        rcases List.mem_append.mp hx' with h | h
+        · exact hsub x h
+        · exact hr0 x h
+      · simp only [undelSum, delSum, Nat.add_zero]
+        unfold totalDelegated; rw [hh, hd]; exact hb
+    cases m with
+    | bankSend src dst d amt =>
+      simp only [Sys.handle] at hx
+      exc_norm at hx
+      split at hx
+      · cases hx
+      · rename_i s1 h1
+        unfold Sys.bankMove at h1
+        exc_split at h1
+        cases hx
+        exact same rfl rfl rfl (fun _ hm => by cases hm)
+    | delegate who v amt =>
+      simp only [Sys.handle] at hx
+      exc_norm at hx
+      exc_split at hx
+      rename_i hw _ _ _
+      have : who = hubA := Classical.not_not.mp hw
+      subst this
+      simp [isStake] at hst'
+    | undelegate who v amt =>
+      simp only [Sys.handle] at hx
+      exc_norm at hx
+      exc_split at hx
+      rename_i hw _ _
+      have : who = hubA := Classical.not_not.mp hw
+      subst this
+      simp [isStake] at hst'
+    | redelegate who src dst amt =>
+      simp only [Sys.handle] at hx
+      exc_norm at hx
+      exc_split at hx
+      rename_i hw hz hin hsd hnr hge
+      have hdst : dst ∈ valUniverse := by simpa using hin
+      have hsrc : src ∈ valUniverse := by
+        by_cases hv : src ∈ valUniverse
+        · exact hv
+        · have := c.outside src hv; omega
+      have hne : src ≠ dst := hsd
+      have h1 := sum_upd valUniverse s.chain.deleg src (s.chain.deleg src - amt) valUniverse_nodup
+      have h2 := sum_upd valUniverse (upd s.chain.deleg src (s.chain.deleg src - amt)) dst
+        (upd s.chain.deleg src (s.chain.deleg src - amt) dst + amt) valUniverse_nodup
+      simp only [hsrc, hdst, if_true] at h1 h2
+      rw [upd_other _ _ _ _ (fun h => hne h.symm)] at h2
+      refine ⟨⟨fun w hw => ?_, fun w hw => ?_⟩, [], rest0, rfl, (fun _ hm => by cases hm), hr0, ?_⟩
+      · have n1 : w ≠ src := fun h => hw (h ▸ hsrc)
+        have n2 : w ≠ dst := fun h => hw (h ▸ hdst)
+        show upd (upd s.chain.deleg src _) dst _ w = 0
+        rw [upd_other _ _ _ _ n2, upd_other _ _ _ _ n1]; exact c.outside w hw
+      · show upd (upd s.chain.deleg src _) dst _ w = 0
+        by_cases n2 : w = dst
+        · subst n2; simp [upd] at hw
+        · rw [upd_other _ _ _ _ n2]
+          by_cases n1 : w = src
+          · subst n1
+            rw [upd_same]
+            have : decide (s.chain.deleg w - amt > 0) = false := by simpa [upd, n2] using hw
+            simpa using this
+          · rw [upd_other _ _ _ _ n1]
+            have : s.chain.delegSet w = false := by simpa [upd, n1, n2] using hw
+            exact c.unset w this
+      · simp only [undelSum, delSum, Nat.add_zero]
+        show s.hub.bBond + s.hub.sBond ≤ (valUniverse.map (upd (upd s.chain.deleg src (s.chain.deleg src - amt)) dst
+          (upd s.chain.deleg src (s.chain.deleg src - amt) dst + amt))).sum
+        rw [upd_other _ _ _ _ (fun h => hne h.symm)]
+        unfold totalDelegated at hb
+        omega
+    | withdrawReward who v =>
+      simp only [Sys.handle] at hx
+      exc_norm at hx
+      exc_split at hx
+      exact same rfl rfl rfl (fun _ hm => by cases hm)
+    | setWithdrawAddr who a =>
+      simp only [Sys.handle] at hx
+      exc_norm at hx
+      exc_split at hx
+      exact same rfl rfl rfl (fun _ hm => by cases hm)
+    | wasm a b cl d =>
+      have ch := handle_wasm_chain s s' a b cl d subs hx
+      have sent := (handle_sentBy s s' _ subs hx).1 a b cl d rfl
+      cases handle_touch s s' _ subs hx with
+      | none h _ hs => exact same h.hub ch.1 ch.2 (sentBy_noStake swapA (by decide) subs hs)
+      | hub s1 sender funds hm heq h1 hc hx' bb t r dd g =>
+        have c1 : ChainOK s1 := ⟨fun w hw => by rw [hc.1]; exact c.outside w hw,
+          fun w hw => by rw [hc.1]; rw [hc.2.1] at hw; exact c.unset w hw⟩
+        have hT : ((s1.hubEnv.delegations).map (·.2)).sum = totalDelegated s := by
+          rw [delegations_sum s1 c1]; unfold totalDelegated; rw [hc.1]
+        obtain ⟨pre, rest', hms, hp, hr, hle'⟩ := hub_books_step _ _ _ _ _ _ _ _ rfl hT hb hx'
+        refine ⟨⟨fun w hw => by rw [ch.1]; exact c.outside w hw,
+          fun w hw => by rw [ch.1]; rw [ch.2] at hw; exact c.unset w hw⟩,
+          pre, rest' ++ rest0, by rw [hms, List.append_assoc], hp, ?_, ?_⟩
+        · intro x hx''
+          rcases List.mem_append.mp hx'' with h | h
+          · exact hr x h
+          · exact hr0 x h
+        · unfold totalDelegated; rw [ch.1]; exact hle'
+      | bsei s1 sender funds tm heq h1 hx' h t r dd g =>
+        injection heq with _ e2 _ _
+        exact same h ch.1 ch.2 (sentBy_noStake b (by rw [e2]; decide) subs sent)
+      | stsei blk sender funds tm heq hx' h bb r dd g =>
+        injection heq with _ e2 _ _
+        exact same h ch.1 ch.2 (sentBy_noStake b (by rw [e2]; decide) subs sent)
+      | reward s1 sender funds rm heq h1 hx' h bb t dd g =>
+        injection heq with _ e2 _ _
+        exact same h ch.1 ch.2 (sentBy_noStake b (by rw [e2]; decide) subs sent)
+      | disp env sender funds dm heq hx' h bb t r g =>
+        injection heq with _ e2 _ _
+        exact same h ch.1 ch.2 (sentBy_noStake b (by rw [e2]; decide) subs sent)
+      | reg s1 sender funds rm heq h1 hx' h bb t r dd =>
+        injection heq with _ e2 _ _
+        exact same h ch.1 ch.2 (sentBy_noStake b (by rw [e2]; decide) subs sent)
+
+/-- history steps other than a validator slash (which lowers the delegated stake without the hub
+    knowing until its next slashing check — see `C02_direct_call_recognises`) -/
+def NoSlash : Step → Prop
+  | .env (.slash _ _ _) => False
+  | .env _ => True
+  | .tx m => isStake m = false      -- staking messages in the hub's name are only ever emitted by the hub
+
+theorem ChainOK.env (s : Sys) (e : EnvOp) (c : ChainOK s) : ChainOK (s.env e) := by
+  cases e with
+  | slash v n d =>
+    simp only [Sys.env]
+    split
+    · exact c
+    · refine ⟨fun w hw => ?_, fun w hw => ?_⟩
+      · show upd s.chain.deleg v _ w = 0
+        by_cases h : w = v
+        · subst h; rw [upd_same, c.outside w hw]; simp
+        · rw [upd_other _ _ _ _ h]; exact c.outside w hw
+      · show upd s.chain.deleg v _ w = 0
+        have hw' : s.chain.delegSet w = false := hw
+        by_cases h : w = v
+        · subst h; rw [upd_same, c.unset w hw']; simp
+        · rw [upd_other _ _ _ _ h]; exact c.unset w hw'
+  | slashUnbonding v n d => simp only [Sys.env]; split <;> exact ⟨c.outside, c.unset⟩
+  | _ => exact ⟨c.outside, c.unset⟩
+
+/-- **Every reachable state (no unrecognised slash).** From any state in which the hub books at
+    most what is delegated, after any history of any length that contains no validator slash —
+    any senders, any contracts, failed transactions, time, unbonding-stake slashing, reward
+    accrual — the hub still books at most what is delegated. Bonds add to both sides (their
+    Delegate messages run before anything else of the transaction), undelegations remove from both,
+    redelegations and conversions keep both, nothing else touches either. -/
+theorem C02_reachable (s : Sys) (l : List Step) (c : ChainOK s)
+    (hb : s.hub.bBond + s.hub.sBond ≤ totalDelegated s) (hns : ∀ st ∈ l, NoSlash st) :
+    (s.steps l).hub.bBond + (s.steps l).hub.sBond ≤ totalDelegated (s.steps l) ∧ ChainOK (s.steps l) := by
+  have start : ∀ (x : Sys), ChainOK x → x.hub.bBond + x.hub.sBond ≤ totalDelegated x → ∀ q,
+      (∀ m ∈ q, isStake m = false) → BookInv x q :=
+    fun x cx hx q hq => ⟨cx, [], q, rfl, (fun _ hm => by cases hm), hq, by simpa [undelSum, delSum] using hx⟩
+  induction l generalizing s with
+  | nil => exact ⟨hb, c⟩
+  | cons st rest ih =>
+    show (((s.step st).steps rest).hub.bBond + ((s.step st).steps rest).hub.sBond ≤ _) ∧ _
+    have hst := hns st (List.mem_cons_self ..)
+    have one : (s.step st).hub.bBond + (s.step st).hub.sBond ≤ totalDelegated (s.step st) ∧ ChainOK (s.step st) := by
+      cases st with
+      | env e =>
+        refine ⟨?_, ChainOK.env s e c⟩
+        show (s.env e).hub.bBond + (s.env e).hub.sBond ≤ totalDelegated (s.env e)
+        cases e with
+        | slash v n d => exact absurd hst (by simp [NoSlash])
+        | slashUnbonding v n d => simp only [Sys.env]; split <;> exact hb
+        | _ => exact hb
+      | tx m =>
+        show (s.exec m).1.hub.bBond + (s.exec m).1.hub.sBond ≤ totalDelegated (s.exec m).1 ∧ ChainOK (s.exec m).1
+        unfold Sys.exec
+        split
+        · rename_i s' hrun
+          have hm : isStake m = false := hst
+          have inv0 := start s c hb [m] (by intro x hx; simp at hx; subst hx; exact hm)
+          have fin := run_inv2 BookInv (fun a b r a' sb => BookInv.step a a' b r sb) 400 s [m] s' inv0 hrun
+          exact ⟨fin.drained, fin.chain⟩
+        · exact ⟨hb, c⟩
+    exact ih (s.step st) one.2 one.1 (fun st' h' => hns st' (List.mem_cons_of_mem _ h'))
+
+/-- **Recognition after a slash.** From *any* state (however stale the books are after slashing), a
+    successful transaction whose top-level message is a hub pricing entry point that starts with the
+    slashing check — Bond, BondForStSei, BondRewards, CheckSlashing — ends with the booked stake at
+    most the delegated stake, provided a delegation object still exists (or nothing is booked). -/
+theorem C02_direct_call_recognises (s s' : Sys) (sender : Addr) (funds : List (Denom × Nat)) (hm : HubMsg)
+    (c : ChainOK s) (hp : hm = .bond ∨ hm = .bondForStSei ∨ hm = .bondRewards ∨ hm = .checkSlashing)
+    (hd : s.delegationsOf hubA ≠ [] ∨ s.hub.bBond + s.hub.sBond = 0)
+    (hx : Sys.run 400 s [.wasm sender hubA (.hub hm) funds] = .ok s') :
+    s'.hub.bBond + s'.hub.sBond ≤ totalDelegated s' := by
+  simp only [Sys.run] at hx
+  split at hx
+  · cases hx
+  · rename_i s1' subs h1
+    have ch := handle_wasm_chain s s1' _ _ _ _ subs h1
+    cases handle_touch s s1' _ subs h1 with
+    | none h hm' _ =>
+      rcases hm' with hm' | ⟨a, b, c', d, heq, ht⟩
+      · exact absurd rfl (hm' _ _ _ _)
+      · injection heq with _ e2 _ _
+        rcases ht with ht | ht <;> (rw [ht] at e2; cases e2)
+    | hub s1 sender' funds' hm' heq h1' hc hx' bb t r dd g =>
+      injection heq with e1 _ e3 e4
+      injection e3 with e3
+      subst e1; subst e3; subst e4
+      have c1 : ChainOK s1 := ⟨fun w hw => by rw [hc.1]; exact c.outside w hw,
+        fun w hw => by rw [hc.1]; rw [hc.2.1] at hw; exact c.unset w hw⟩
+      have hT : ((s1.hubEnv.delegations).map (·.2)).sum = totalDelegated s := by
+        rw [delegations_sum s1 c1]; unfold totalDelegated; rw [hc.1]
+      have hd1 : s1.hubEnv.delegations ≠ [] ∨ s.hub.bBond + s.hub.sBond = 0 := by
+        rcases hd with hd | hd
+        · left
+          show s1.delegationsOf hubA ≠ []
+          unfold Sys.delegationsOf at hd ⊢
+          rw [hc.1, hc.2.1]; exact hd
+        · exact Or.inr hd
+      -- the slashing check that opens each of the four handlers
+      have act : ∀ st, s.hub.actualState s1.hubEnv = .ok st → st.bBond + st.sBond ≤ totalDelegated s := by
+        intro st hst
+        have := C02_books_le_delegated s.hub st s1.hubEnv hst hd1
+        rw [hT] at this; exact this
+      have inv1 : BookInv s1' (subs ++ []) := by
+        have cok : ChainOK s1' := ⟨fun w hw => by rw [ch.1]; exact c.outside w hw,
+          fun w hw => by rw [ch.1]; rw [ch.2] at hw; exact c.unset w hw⟩
+        have tot : totalDelegated s1' = totalDelegated s := by unfold totalDelegated; rw [ch.1]
+        refine ⟨cok, ?_⟩
+        rw [tot]
+        rcases hp with hp | hp | hp | hp <;> subst hp
+        · simp only [hubExec] at hx'; split at hx'
+          · cases hx'
+          · obtain ⟨p, st, mint, dl, tok, _, hst, _, _, hdl, _, hh, hms⟩ := bondB_spec _ _ _ _ _ _ hx'
+            have ds := delegs_stake s.hub s1.hubEnv p dl rfl hdl
+            refine ⟨dl, [tokMsg s1.hubEnv.self tok (.mint sender mint)] ++ [], by rw [hms]; simp, ds.1,
+              (by intro y hy; simp at hy; subst hy; rfl), ?_⟩
+            have := act st hst
+            rw [hh, ds.2.1, ds.2.2]; simp only []; omega
+        · simp only [hubExec] at hx'; split at hx'
+          · cases hx'
+          · obtain ⟨p, st, dl, tok, _, hst, _, hdl, _, hh, hms⟩ := bondS_spec _ _ _ _ _ _ hx'
+            have ds := delegs_stake s.hub s1.hubEnv p dl rfl hdl
+            refine ⟨dl, [tokMsg s1.hubEnv.self tok (.mint sender (decDiv p st.sRate))] ++ [], by rw [hms]; simp, ds.1,
+              (by intro y hy; simp at hy; subst hy; rfl), ?_⟩
+            have := act st hst
+            rw [hh, ds.2.1, ds.2.2]; simp only []; omega
+        · simp only [hubExec] at hx'; split at hx'
+          · cases hx'
+          · obtain ⟨p, st, _, _, hst, hdl, hh⟩ := bondR_spec _ _ _ _ _ _ hx'
+            have ds := delegs_stake s.hub s1.hubEnv p subs rfl hdl
+            refine ⟨subs, [], by simp, ds.1, (fun _ hm => by cases hm), ?_⟩
+            have := act st hst
+            rw [hh, ds.2.1, ds.2.2]; simp only []; omega
+        · simp only [hubExec] at hx'; split at hx'
+          · cases hx'
+          · exc_norm at hx'
+            split at hx'
+            · cases hx'
+            · rename_i st hst
+              injection hx' with hx'; injection hx' with e1 e2
+              refine ⟨[], [], by rw [← e2], (fun _ hm => by cases hm), (fun _ hm => by cases hm), ?_⟩
+              have := act st hst
+              rw [← e1]; simpa [undelSum, delSum] using this
+      have fin := run_inv2 BookInv (fun a b r a' sb => BookInv.step a a' b r sb) 399 s1' _ s' inv1 hx
+      exact fin.drained
+    | bsei s1 sender' funds' tm heq _ _ _ _ _ _ _ => injection heq with _ e2 _ _; cases e2
+    | stsei blk sender' funds' tm heq _ _ _ _ _ _ => injection heq with _ e2 _ _; cases e2
+    | reward s1 sender' funds' rm heq _ _ _ _ _ _ _ => injection heq with _ e2 _ _; cases e2
+    | disp env sender' funds' dm heq _ _ _ _ _ _ => injection heq with _ e2 _ _; cases e2
+    | reg s1 sender' funds' rm heq _ _ _ _ _ _ _ => injection heq with _ e2 _ _; cases e2
+
+/-! Non-vacuity: the genesis state of the corpus satisfies the premises. -/
+example : ChainOK genesisSys ∧ genesisSys.hub.bBond + genesisSys.hub.sBond ≤ totalDelegated genesisSys :=
+  ⟨⟨fun _ _ => rfl, fun _ _ => rfl⟩, by decide⟩
 
 end Krp
